@@ -859,3 +859,93 @@ Section Complete.
       + rewrite knotify_miss by exact Hcov. eexists; split; reflexivity.
   Qed.
 End Complete.
+
+(* ================================================================== 5. history-level soundness: refuted (F10) *)
+(* every event queued along any history of the pipeline model is justified by an operation executed before it *)
+Definition sound_full : Prop :=
+  forall P w s0 h, pc_filter P = None -> c_mask (pc_reader P) = WATCHDOG_ALL ->
+    pinit P w = Some s0 -> sound_along P s0 [] h = true.
+
+Definition ph_R : bytes := [47; 82]%N.                       (* /R  - the watched root *)
+Definition ph_O : bytes := [47; 79]%N.                       (* /O  - outside *)
+Definition ph_Rd : bytes := [47; 82; 47; 100]%N.             (* /R/d *)
+Definition ph_Od : bytes := [47; 79; 47; 100]%N.             (* /O/d *)
+Definition ph_Odg : bytes := [47; 79; 47; 100; 47; 103]%N.   (* /O/d/g *)
+Definition ph_Rdg : bytes := [47; 82; 47; 100; 47; 103]%N.   (* /R/d/g - the stale in-tree path *)
+
+Definition ph_cfg : pcfg :=
+  {| pc_reader := {| c_recursive := true; c_mask := WATCHDOG_ALL; c_root := ph_R; c_fix_ignored := true;
+                     c_fix_movein := true; c_fix_simulate := true; c_faults := [] |};
+     pc_full := false; pc_filter := None; pc_delay := 5 |}.
+
+Definition ph_world : world :=
+  {| w_fs := [ {| f_path := ph_R; f_ino := 1; f_dir := true |}; {| f_path := ph_O; f_ino := 2; f_dir := true |} ];
+     w_next_ino := 10 |}.
+
+(* mkdir R/d; drain; rename R/d -> O/d; drain (the pairing delay elapses); touch O/d/g; drain *)
+Definition ph_history : list action :=
+  [AOp (Mkdir ph_Rd); ARead 100; AEmit; AEmit;
+   AOp (Rename ph_Rd ph_Od); ARead 100; ATick 10; AEmit; AEmit;
+   AOp (Touch ph_Odg); ARead 100; AEmit; AEmit; AEmit; AEmit].
+
+Lemma phantom_delivered :
+  exists s0 s obs, pinit ph_cfg ph_world = Some s0 /\ prun ph_cfg s0 ph_history [] = Done (s, obs) /\
+    In (mk FileCreated ph_Rdg []) (p_out s) /\ fexists ph_Rdg (w_fs (p_world s)) = false /\
+    fexists ph_Odg (w_fs (p_world s)) = true.
+Proof.
+  eexists; eexists; eexists. split; [vm_compute; reflexivity|]. split; [vm_compute; reflexivity|].
+  split; [|split; vm_compute; reflexivity]. vm_compute. right. right. right. right. left. reflexivity.
+Qed.
+
+Lemma sound_refuted_phantom :
+  exists P w s0 h, pc_filter P = None /\ c_mask (pc_reader P) = WATCHDOG_ALL /\
+    c_fix_ignored (pc_reader P) = true /\ c_fix_movein (pc_reader P) = true /\ c_fix_simulate (pc_reader P) = true /\
+    pinit P w = Some s0 /\ sound_along P s0 [] h = false.
+Proof.
+  exists ph_cfg, ph_world. eexists. exists ph_history.
+  do 5 (split; [reflexivity|]). split; [vm_compute; reflexivity|]. vm_compute. reflexivity.
+Qed.
+
+Lemma sound_full_false : ~ sound_full.
+Proof.
+  intros H. destruct sound_refuted_phantom as [P [w [s0 [h [H1 [H2 [_ [_ [_ [H3 H4]]]]]]]]]].
+  rewrite (H P w s0 h H1 H2 H3) in H4. discriminate.
+Qed.
+
+(* ================================================================== 6. a concrete small world for the non-vacuity examples *)
+Definition ex_sl (a : bytes) (c : N) : bytes := a ++ [sep; c].
+Definition ex_R : bytes := [47; 82]%N.                 (* /R *)
+Definition ex_O : bytes := [47; 79]%N.                 (* /O *)
+Definition ex_Rd : bytes := ex_sl ex_R 100.            (* /R/d      directory *)
+Definition ex_Rdf : bytes := ex_sl ex_Rd 102.          (* /R/d/f    file *)
+Definition ex_Rde : bytes := ex_sl ex_Rd 101.          (* /R/d/e    empty directory *)
+Definition ex_Rx : bytes := ex_sl ex_R 120.            (* /R/x      file *)
+Definition ex_Oy : bytes := ex_sl ex_O 121.            (* /O/y      file *)
+Definition ex_Oz : bytes := ex_sl ex_O 122.            (* /O/z      directory *)
+Definition ex_Ozg : bytes := ex_sl ex_Oz 103.          (* /O/z/g    file *)
+
+Definition ex_fs : fs :=
+  [ {| f_path := ex_R; f_ino := 1; f_dir := true |};   {| f_path := ex_O; f_ino := 2; f_dir := true |};
+    {| f_path := ex_Rd; f_ino := 3; f_dir := true |};  {| f_path := ex_Rdf; f_ino := 4; f_dir := false |};
+    {| f_path := ex_Rde; f_ino := 5; f_dir := true |}; {| f_path := ex_Rx; f_ino := 6; f_dir := false |};
+    {| f_path := ex_Oy; f_ino := 7; f_dir := false |}; {| f_path := ex_Oz; f_ino := 8; f_dir := true |};
+    {| f_path := ex_Ozg; f_ino := 9; f_dir := false |} ].
+Definition ex_world : world := {| w_fs := ex_fs; w_next_ino := 20 |}.
+
+Definition ex_C (recursive : bool) : cfg :=
+  {| c_recursive := recursive; c_mask := WATCHDOG_ALL; c_root := ex_R; c_fix_ignored := true;
+     c_fix_movein := true; c_fix_simulate := true; c_faults := [] |}.
+
+(* the state right after Inotify.__init__ *)
+Definition ex_state (recursive : bool) : rstate * kst :=
+  match construct (ex_C recursive) kinit ex_fs with Some x => x | None => (rinit0, kinit) end.
+Definition ex_r (recursive : bool) : rstate := fst (ex_state recursive).
+Definition ex_k (recursive : bool) : kst := snd (ex_state recursive).
+
+(* hypotheses of a contract lemma hold for operation [o] on parent directories [ds], and the delivered list is [l] *)
+Definition ex_ok (recursive full : bool) (ds : list bytes) (o : op) (l : list nevent) : Prop :=
+  k_queue (ex_k recursive) = [] /\
+  Forall (cover (ex_C recursive) (ex_r recursive) (ex_k recursive) ex_fs) ds /\
+  apply_op ex_world o <> None /\
+  deliver_one (ex_C recursive) full ex_world (ex_k recursive) (ex_r recursive) o = Some l /\
+  collapse l = collapse (contract recursive full ex_R ex_fs o).
